@@ -18,7 +18,7 @@ from concurrent.futures import ThreadPoolExecutor
 
 import vlib
 
-KEEP = {"Cfg", "Cmd", "CheckCall", "TgtCall", "Ret", "End"}
+KEEP = {"Cfg", "Cmd", "CheckCall", "ModCall", "TgtCall", "Ret", "End"}
 ALL_DEVS = ["NABody", "BodyPerScope", "ReplayRejectLeaks"]
 CH4 = ["c1", "c2", "c3", "c4"]
 STAGES = ["conn", "sender", "rcpt", "body"]
@@ -32,6 +32,8 @@ CONSTANTS
   Dmarcs = {%(dmarcs)s}
   Only1On = %(only1)s
   WithRemote = %(remote)s
+  Kinds = {%(kinds)s}
+  ModOn = %(modon)s
   Lazy = %(lazy)s
   Devs = {%(devs)s}
   Gen = %(gen)s
@@ -50,10 +52,10 @@ def B(x):
 
 
 def cfg(n, maxr, nn, scopes, dmarcs=("off",), only1=False, devs=(), gen=False, lazy=True,
-        remote=True, maxdelay=2, tail=MC_TAIL, spec="Spec"):
+        remote=True, maxdelay=2, tail=MC_TAIL, spec="Spec", kinds=("pipe",), modon=False):
     return CFG % dict(spec=spec, n=n, maxr=maxr, nn=nn, scopes=scopes,
                       dmarcs=", ".join('"%s"' % d for d in dmarcs), only1=B(only1),
-                      remote=B(remote), lazy=B(lazy),
+                      remote=B(remote), lazy=B(lazy), kinds=", ".join('"%s"' % x for x in kinds), modon=B(modon),
                       devs=", ".join('"%s"' % d for d in devs), gen=B(gen), maxdelay=maxdelay,
                       tail=tail)
 
@@ -63,12 +65,19 @@ MC_QUICK = [
     ("mc2", dict(n=2, maxr=2, nn=2, scopes=2, dmarcs=("off",), only1=False)),
     ("mc1", dict(n=1, maxr=3, nn=2, scopes=4, dmarcs=("off", "quar"), only1=True)),
     ("mc3", dict(n=3, maxr=2, nn=2, scopes=1, dmarcs=("off",), only1=False)),
+    # destination blocks with a recipient modifier that fails for one recipient
+    ("mcmod", dict(n=1, maxr=3, nn=2, scopes=4, modon=True)),
+    # the real remote target behind destination block D1
+    ("mcrp", dict(n=1, maxr=2, nn=2, scopes=4, dmarcs=("off", "quar"), kinds=("rpipe",))),
 ]
 MC_THOROUGH = [
     ("mc1full", dict(n=1, maxr=3, nn=4, scopes=4, dmarcs=("off", "quar"), only1=True)),
     ("mc2", dict(n=2, maxr=3, nn=2, scopes=4, dmarcs=("off", "quar"), only1=True)),
     ("mc3", dict(n=3, maxr=2, nn=2, scopes=2, dmarcs=("off",), only1=False)),
     ("mc4", dict(n=4, maxr=2, nn=1, scopes=2, dmarcs=("off",), only1=False)),
+    ("mcmod", dict(n=2, maxr=2, nn=2, scopes=2, modon=True)),
+    ("mcmod1", dict(n=1, maxr=3, nn=2, scopes=4, modon=True)),
+    ("mcrp", dict(n=2, maxr=2, nn=2, scopes=2, dmarcs=("off", "quar"), kinds=("rpipe",))),
 ]
 
 
@@ -93,7 +102,9 @@ def norm_cfg(c):
     return {"place": place, "verd": verd, "only1": only1, "route": list(c.get("route") or []),
             "path": c.get("path") if c.get("path") in ("atomic", "na") else "atomic",
             "dmarc": c.get("dmarc") if c.get("dmarc") in ("off", "quar") else "off",
-            "kind": c.get("kind", "pipe")}
+            "kind": c.get("kind", "pipe"),
+            "mod": "on" if c.get("mod") == "on" else "off",
+            "mfail": sorted(c.get("mfail") or [])}
 
 
 def behaviours_from(r):
@@ -166,17 +177,22 @@ def run(ctx, replay):
     else:
         # ---- (B) behaviours out of TLC (jobs run next to the exhaustive runs) ----------
         sim = dict(n=4 if thorough else 3, maxr=3, nn=3 if thorough else 2, dmarcs=("off", "quar"), only1=True,
-                   devs=open_devs, lazy=False, remote=False, maxdelay=2)
+                   devs=open_devs, lazy=False, remote=False, maxdelay=2, modon=True)
         n_sim = 2000 if thorough else 260
         gens = [
-            # small scopes, every behaviour (all completion orders within the delay bound)
+            # small scopes, every behaviour (all completion orders within the delay bound):
+            # one check anywhere, a failing recipient modifier in the destination blocks
             pool.submit(gen_job, ctx, "gen-s1", dict(n=1, maxr=2, nn=1, scopes=2, only1=True, devs=open_devs,
-                                                     remote=False, maxdelay=1)),
+                                                     remote=False, maxdelay=1, modon=True)),
             # no shared checks / any placement
             pool.submit(gen_job, ctx, "gen-sim1", dict(sim, scopes=1), simulate=n_sim, depth=300),
             pool.submit(gen_job, ctx, "gen-sim4", dict(sim, scopes=4), simulate=n_sim, depth=300),
             # the remote-target scenario (no placement at all: only the remote configuration is left)
             pool.submit(gen_job, ctx, "gen-remote", dict(n=1, maxr=1, nn=0, scopes=0, remote=True)),
+            # the real remote target behind the pipeline, both body paths, quarantine by a check or DMARC
+            pool.submit(gen_job, ctx, "gen-rpipe", dict(n=1, maxr=2, nn=1, scopes=2, dmarcs=("off", "quar"),
+                                                        devs=open_devs, remote=False, maxdelay=1,
+                                                        kinds=("rpipe",))),
         ]
         if thorough:
             gens += [
@@ -184,6 +200,9 @@ def run(ctx, replay):
                                                          only1=True, devs=open_devs, remote=False, maxdelay=1)),
                 pool.submit(gen_job, ctx, "gen-s3", dict(n=2, maxr=2, nn=1, scopes=1, devs=open_devs,
                                                          remote=False, maxdelay=2)),
+                pool.submit(gen_job, ctx, "gen-rpipe2", dict(n=1, maxr=2, nn=2, scopes=4, dmarcs=("off", "quar"),
+                                                             devs=open_devs, remote=False, maxdelay=1,
+                                                             kinds=("rpipe",))),
             ]
         # ---- (T) exhaustive model checking of the design ------------------------------
         mcs = [pool.submit(mc_job, ctx, name, kw, 8 if thorough else 6, 3000 if thorough else 600)
@@ -199,11 +218,14 @@ def run(ctx, replay):
         behs = []
         for i, f in enumerate(gens):
             got = f.result()
-            if i == 4:      # the widest small scope is sampled (seeded); the others are replayed completely
+            if i == 5:      # the widest small scope is sampled (seeded); the others are replayed completely
                 got = vlib.sample(ctx.rng, got, 4000)
+            if i == 0 and not thorough:
+                got = vlib.sample(ctx.rng, got, 1500)
             behs += got
         ctx.cov["exhaustive_small_scope_behaviours"] = len(gens[0].result()) + \
             sum(len(f.result()) for f in gens[4:])
+        ctx.cov["remote_behind_pipeline_behaviours"] = len(gens[4].result())
         behs = dedup(behs)
         if not behs:
             raise vlib.Infra("TLC produced no behaviours")
@@ -246,7 +268,7 @@ def run(ctx, replay):
     verdicts, by_t = ctx.validate(
         "CheckRunnerTrace", None, events, keep=KEEP, batch=1200,
         cfg_text=cfg(n=4, maxr=3, nn=0, scopes=4, dmarcs=("off", "quar"), only1=True, devs=open_devs,
-                     maxdelay=0, tail=TRACE_TAIL, spec="TSpec"))
+                     maxdelay=0, tail=TRACE_TAIL, spec="TSpec", kinds=("pipe", "rpipe"), modon=True))
 
     ok = drift = extra = 0
     preds, known_n = {}, {}
@@ -298,7 +320,9 @@ def run(ctx, replay):
     ctx.cov["evaluations"] = len(behs)
     ctx.cov["distinct_nontrivial"] = sum(1 for b in behs if nontrivial(b))
     ctx.cov["rule"] = ("behaviours = complete behaviours of CheckRunner.tla printed by TLC: every behaviour of small "
-                       "scopes (1 check, <=2 recipients, <=1 non-none verdict; thorough also 1 check with <=2 "
+                       "scopes (1 check, <=2 recipients, <=1 non-none verdict, destination modifiers failing for at "
+                       "most one recipient - sampled to 1500 in quick; the real remote target behind block D1 with "
+                       "both body paths and DMARC; thorough also 1 check with <=2 "
                        "non-none verdicts on any placement with DMARC, and 2 checks in one block each with all "
                        "completion orders) plus -simulate over 3 (thorough 4) checks, 3 recipients, <=2 (3) non-none "
                        "verdicts, both body paths, DMARC quarantine, random completion orders within 2 delays, half "
@@ -312,7 +336,11 @@ def run(ctx, replay):
         "driven at the module.DeliveryTarget interface of msgpipeline.MsgPipeline (Body = SMTP path, "
         "BodyNonAtomic = LMTP path); the endpoints themselves are the subject of C03",
         "scripted checks apply their verdict through the real modconfig.FailAction.Apply; delivery targets are "
-        "recording targets that always succeed; the real remote target is exercised with an already flagged message",
+        "recording targets that always succeed; the real remote target is exercised with an already flagged message "
+        "(RCPT) and behind the pipeline over an in-memory next hop that accepts everything (body stage, both paths); "
+        "a refusal by the remote target is a 5.7.z policy error with nothing handed to the next hop",
+        "after a per-recipient body that was refused for every recipient the driver aborts (it does not call Commit "
+        "as the LMTP endpoint does; that history is C03's)",
         "verdicts are per stage (rcpt-stage verdicts optionally for the first recipient only); headers and "
         "Authentication-Results added by checks are not modelled",
         "TLC 1.8.0, CommunityModules Json reader",
@@ -332,7 +360,9 @@ META = {
             "quarantine action and every completion order of the parallel check calls of CheckRunner.tla, and checks "
             "the C06 predicates in every state; the same predicates are evaluated by TLC over traces recorded from "
             "the real pipeline driven with TLC-generated behaviours (small scopes exhaustively incl. all "
-            "delay-bounded completion orders, plus simulated behaviours with 3-4 checks).",
+            "delay-bounded completion orders, plus simulated behaviours with 3-4 checks). Also modelled and "
+            "replayed: destination-scope recipient modifiers that fail for one recipient, and the real remote.Target "
+            "behind the pipeline (in-memory next hop) with quarantine arising at the body stage on both body paths.",
     "note": "Pipeline-level binding (DeliveryTarget interface), not through the SMTP/LMTP endpoints; weak readings of "
             "DESIGN 2.5 (out-of-scope replay calls, calls during refused commands and verdicts about replayed "
             "recipients are not counted); trusted: TLC, the harness, Go toolchain.",
